@@ -44,6 +44,11 @@ void eb_hlv(eb_t r, const eb_t p) {
 	fb_null(l);
 	fb_null(t);
 
+	if (eb_is_infty(p)) {
+		eb_set_infty(r);
+		return;
+	}
+
 	RLC_TRY {
 		fb_new(l);
 		fb_new(t);
